@@ -49,6 +49,8 @@ class ValueGen:
         self.restarts_left = cfg.get("restarts", 0)
         self.restart_at = cfg.get("restart_at", [])
         self.dyn_cats = []  # [(category, qt)] requested by the registrar client during the run
+        self.dyn_units = cfg.get("dyn_units", [])  # units a plugin registers at some point of the run
+        self.reg_forms = cfg.get("reg_forms")
         self.legacy = W.legacy_spellings(info) if cfg["world"] == "W-POSC" else []
         self.legacy_by_qt = {}
         for leg, _cur, q in self.legacy:
@@ -65,6 +67,11 @@ class ValueGen:
     def unit_of(self, b, other_than=None):
         us = [x for x in b[1] if x != other_than] or list(b[1])
         r = self.rng.random()
+        if self.dyn_units and r > 0.8:
+            db = _db_now()
+            live = [d["sym"] for d in self.dyn_units if d["qt"] == b[0] and db.GetQuantityType(d["sym"]) == b[0]]
+            if live:
+                return self.rng.choice(live)
         if r < 0.1:
             return self.rng.choice(self.info[b[0]]["units"])
         if r < 0.16 and self.legacy_by_qt.get(b[0]):
@@ -76,7 +83,7 @@ class ValueGen:
         cs = list(b[2]) + [c for c, q in self.limited if q == b[0]]
         if self.dyn_cats:
             db = _db_now()
-            cs += [c for c, q in self.dyn_cats if q == b[0] and db.IsValidCategory(c)]
+            cs += [c for c, q in self.dyn_cats if db.IsValidCategory(c) and db.GetCategoryQuantityType(c) == b[0]]
         return self.rng.choice(cs)
 
     def basis_for_qt(self, qt):
@@ -965,7 +972,37 @@ class ValueGen:
         b = self.qt()
         others = [x for x in self.basis if x[0] != b[0]]
         n = len(self.dyn_cats)
-        form = rng.choice(["unit_dup", "unit_dup", "base_dup", "cat_dup", "cat_foreign_default", "cat_foreign_valid", "cat_new", "cat_new", "cat_copy", "cat_bad_limits"])
+        form = rng.choice(self.reg_forms or ["unit_dup", "unit_dup", "base_dup", "cat_dup", "cat_foreign_default", "cat_foreign_valid", "cat_new", "cat_new", "cat_copy", "cat_bad_limits"])
+        if form == "unit_new":
+            db = _db_now()
+            todo = [d for d in self.dyn_units if db.GetQuantityType(d["sym"]) is None]
+            if not todo:
+                return None
+            d = rng.choice(todo)
+            return self.op("reg.AddUnit.new", "db", "AddUnit", [d["qt"], d["name"], d["sym"], "%%f / %r" % d["k"], "%%f * %r" % d["k"]])
+        if form in ("cat_override", "cat_retype"):
+            db = _db_now()
+            live = [(c, db.GetCategoryQuantityType(c)) for c, _q in self.dyn_cats if db.IsValidCategory(c)]
+            if not live:
+                return None
+            c, qt_now = rng.choice(live)
+            self.requests = {}  # the category is replaced: earlier requests resolve differently now
+            if form == "cat_retype":
+                cands = [x for x in self.basis if x[0] != qt_now]
+                if not cands:
+                    return None
+                b2 = rng.choice(cands)
+                return self.op("reg.AddCategory.retype", "db", "AddCategory", [c, b2[0]], kw={"override": True})
+            b2 = self.basis_for_qt(qt_now)
+            if b2 is None:
+                return None
+            kw = {"override": True, "default_unit": rng.choice(b2[1])}
+            lo, hi = rng.choice([(None, None), (0.0, None), (None, 1000.0), (-10.0, 10.0)])
+            if lo is not None:
+                kw["min_value"] = lo
+            if hi is not None:
+                kw["max_value"] = hi
+            return self.op("reg.AddCategory.override", "db", "AddCategory", [c, qt_now], kw=kw)
         if form in ("unit_dup", "base_dup"):
             sym = self.rng.choice(rng.choice(others)[1]) if (others and rng.random() < 0.8) else rng.choice(b[1])
             if form == "unit_dup":
@@ -1139,6 +1176,16 @@ class ValueGen:
             b = self.qt()
             nm = rng.choice(["no-such-unit", "xyz"])
             form = rng.choice(["Scalar.vu", "Scalar.vuc", "Array.Vu", "q.u", "q.uc", "GetValue", "db.Convert", "Scalar.c"])
+            if self.dyn_units and rng.random() < 0.6:
+                # look-ahead: a unit that a plugin is going to register later in this run
+                db = _db_now()
+                todo = [d for d in self.dyn_units if db.GetQuantityType(d["sym"]) is None]
+                if todo:
+                    d = rng.choice(todo)
+                    bb = self.basis_for_qt(d["qt"])
+                    if bb is not None:
+                        b, nm = bb, d["sym"]
+                        form = rng.choice(["Scalar.vuc", "Scalar.vuc", "q.uc", "db.Convert", "Scalar.vu", "db.CheckCategoryUnit"])
             if form == "Scalar.vu":
                 o = self.op("mk.Scalar.vu", "Scalar", "()", [self.value(), nm])
             elif form == "Scalar.vuc":
@@ -1151,6 +1198,8 @@ class ValueGen:
                 o = self.op("mk.q.uc", "units", "ObtainQuantity", [nm, self.cat_of(b)])
             elif form == "Scalar.c":
                 o = self.op("mk.Scalar.c", "Scalar", "()", ["no such category"])
+            elif form == "db.CheckCategoryUnit":
+                o = self.op("lk.db.CheckCategoryUnit", "db", "CheckCategoryUnit", [self.cat_of(b), nm])
             elif form == "db.Convert":
                 o = self.op("cv.db.Convert.float", "db", "Convert", [b[0], self.unit_of(b), nm, self.value()])
             else:
@@ -1160,7 +1209,7 @@ class ValueGen:
                 o = self.op("cv.GetValue", ref(s[0]), "GetValue", [nm])
             o["f"] = "F1.unknown_name"
             o["k"] = "flt.unknown_name." + o["k"]
-            o["x"] = [{"o": "raises_any", "p": "C05", "id": "C05.loud", "why": "unknown_unit"}]
+            o["x"] = [{"o": "raises_any", "p": "C05", "id": "C05.loud", "why": "unknown_unit", "unit": nm}]
             return o
         return None
 
